@@ -39,7 +39,7 @@ IDENT_POOL = [i for i in dict.fromkeys(IDENT_POOL) if i not in KEYWORDS and i no
 NASTY_NAMES = ["", " ", "  lead", "trail ", "a b", "\"", "\\", "\\n", "\n", "\t", "{}", "{0}", "{:?}", "{{", "}",
                "%s", "'", "\0", "a\0b", "é", "é", "名前", "🦀", "A*", "a-b", "a::b", "#", "r#\"x\"#",
                "​", "﻿", "ß", "SS", "İ", "i̇", "x" * 300, "\r\n", "\r", "null", "None", "Self",
-               " ", "‮", "\x7f", "\x1b[0m"]
+               " ", "‮", "\x7f", "\x1b[0m"] + ["n" * k for k in (7, 8, 9, 15, 16, 17, 31, 32, 33, 63, 64, 65, 127, 128, 255, 256, 257)] + ["é" * k for k in (4, 8, 16)]
 
 GAPS = [1, 1, 1, 2, 2, 3, 7, 100, 1000, 10 ** 6, 2 ** 31, 2 ** 32, 2 ** 40, 2 ** 62,
         # multiples and neighbours of the type sizes (arithmetic done modulo a narrower width)
